@@ -123,3 +123,15 @@ Example ex_check_noise_case :
   check_noise_case (false, [2; 1; 2], [Fin 1; NaN; Fin 2; Fin 3]%Q, [1; 0; 1; 1]%N, [Fin 1; Fin 5; Fin 2; Fin 3]%Q,
                     [], [Fin (25 # 3)]%Q) = false.
 Proof. split; vm_compute; reflexivity. Qed.
+
+(** non-vacuity of the noise padding theorem: [ex_y_nan] meets its hypotheses; with 2 more visits holding NaN (y)
+    and +inf (model) the variances are the same 5/3 and (1/2, 4), and the padded shapes really are 2 x 3 x 2 *)
+Example ex_noise_padding :
+  wf ex_y_nan /\ weight ex_y_nan <> None /\ length (shape (value ex_y_nan)) = 3 /\
+  shape ex_model_pinf = shape (value ex_y_nan) /\
+  shape (value (wpad VISIT_POS 2 (fun _ => NaN) ex_y_nan)) = [2; 3; 2] /\
+  flat_is (noise_var_scalar (wpad VISIT_POS 2 (fun _ => NaN) ex_y_nan) (tpad VISIT_POS 2 (fun _ => PInf) ex_model_pinf))
+          [] [Fin (5 # 3)]%Q = true /\
+  flat_is (noise_var_diagonal (wpad VISIT_POS 2 (fun _ => NaN) ex_y_nan) (tpad VISIT_POS 2 (fun _ => PInf) ex_model_pinf))
+          [2] [Fin (1 # 2); Fin 4]%Q = true.
+Proof. repeat split; try discriminate; vm_compute; reflexivity. Qed.
